@@ -65,7 +65,7 @@ func VerifLemma_C03E_PackageElements() {
 	req := &vbReq{}
 	var prevEls, curEls []vbPkgEl
 	for i := 0; i < np; i++ {
-		f := &vFile{path: vbPathPool[i], pkg: vbNondetLetter()}
+		f := &vFile{path: vbPathPool[i], pkg: vbNondetLetter(), isImport: verifNondetBool()}
 		req.prev = append(req.prev, f)
 		if i == 0 || verifNondetChoice(2) == 1 {
 			n := vbNondetNested(nd)
@@ -81,7 +81,7 @@ func VerifLemma_C03E_PackageElements() {
 		if i == 0 && verifNondetChoice(2) == 1 {
 			k = 2
 		}
-		f := &vFile{path: vbPathPool[k], pkg: vbNondetLetter()}
+		f := &vFile{path: vbPathPool[k], pkg: vbNondetLetter(), isImport: verifNondetBool()}
 		req.cur = append(req.cur, f)
 		curFiles = append(curFiles, f)
 		if verifNondetChoice(2) == 1 {
@@ -186,12 +186,12 @@ func VerifLemma_C03E_PackageNoDelete() {
 	req := &vbReq{}
 	var prevPkgs, curPkgs []string
 	for i := 0; i < np; i++ {
-		f := &vFile{path: vbPathPool[i], pkg: vbNondetLetter()}
+		f := &vFile{path: vbPathPool[i], pkg: vbNondetLetter(), isImport: verifNondetBool()}
 		req.prev = append(req.prev, f)
 		prevPkgs = append(prevPkgs, f.pkg)
 	}
 	for i := 0; i < nc; i++ {
-		f := &vFile{path: vbPathPool[i], pkg: vbNondetLetter()}
+		f := &vFile{path: vbPathPool[i], pkg: vbNondetLetter(), isImport: verifNondetBool()}
 		req.cur = append(req.cur, f)
 		curPkgs = append(curPkgs, f.pkg)
 	}
